@@ -3,8 +3,15 @@
  *
  *   CASE <idx> <hint 0=auto 1=enable 2=disable>
  *   A <bytes>                ncmpi_buffer_attach        D   ncmpi_buffer_detach      U   usage/size only
- *   <P|R|I|B|G> <h> <apikind> <needConvert> <needSwap> <contig> <imap> <nbytes> <var> <api a|m|n> <mt> <bl> <nsub> {start.. count..}*
+ *   <P|R|I|B|G> <h> <apikind> <needConvert> <needSwap> <contig> <imap> <nbytes> <var> <api a|m|n|d> <mt> <bl> <nsub> {start.. count..}*
  *        P blocking put   R blocking get   I iput   B bput   G iget
+ *        api d (P and R only) = ncmpi_put_vard / get_vard; the line continues with
+ *            <ft> <coll> <em> … (further tokens are for the model driver only)
+ *          ft   how the filetype is built on the variable's element type: 0 MPI_Type_create_subarray (record variables:
+ *               hvector over records of a one-record subarray), 1 nested hvector of a contiguous row, 2 one contiguous run
+ *          coll 1 = the _all API, 0 = independent API inside begin/end_indep_data
+ *          em   0 regular; 1 bufcount+1 (NC_EIOMISMATCH); 2 filetype built on another element type of the same size
+ *               (NC_ETYPE_MISMATCH); 3 filetype MPI_DATATYPE_NULL; 4 bufcount 0; 5 filetype of size 0  (3..5: zero-length)
  *   W <n> <h>*  |  W -1      wait_all on the ids of these handles (handles that were never queued are dropped)
  *   X <n> <h>*  |  X -1 | X -3   cancel
  *   S <esize> <nelems> <hexbytes>     ncmpii_in_swapn on a byte string
@@ -46,6 +53,7 @@ static MPI_Offset vshape[NVARS][3] = {{16384}, {8192}, {8192}, {4096}, {4096}, {
 
 typedef struct {
     int used, op, var, api, mt, bl, imap, nsub, apikind;
+    int ft, coll, em, nodata, free_ft; MPI_Datatype filetype;   /* vard */
     MPI_Offset st[MAXSUB][3], ct[MAXSUB][3];
     size_t nelems, memelems, esize, bytes;
     unsigned char *mem, *buf, *orig, *keep;   /* keep = what the caller put into the buffer after a bput was posted */
@@ -55,21 +63,32 @@ typedef struct {
 static Req R[MAXH];
 
 /* ---- PMPI interception: which buffer does the library pass to MPI_File_write_at? ---- */
-static const unsigned char *watch_buf, *watch_orig; static size_t watch_len; static int seen_user, seen_swapped, seen_other;
-static void note_write(const void *buf)
+static const unsigned char *watch_buf, *watch_orig; static size_t watch_len; static int seen_user, seen_swapped, seen_other, seen_count;
+static void note_write(const void *buf, int count)
 {
     if (watch_buf == NULL) return;
-    if (buf == (const void *)watch_buf) { seen_user = 1; if (memcmp(watch_buf, watch_orig, watch_len) != 0) seen_swapped = 1; }
+    if (buf == (const void *)watch_buf) { seen_user = 1; seen_count = count; if (memcmp(watch_buf, watch_orig, watch_len) != 0) seen_swapped = 1; }
     else seen_other = 1;
 }
 int MPI_File_write_at(MPI_File fh, MPI_Offset off, const void *buf, int count, MPI_Datatype t, MPI_Status *st)
-{ note_write(buf); return PMPI_File_write_at(fh, off, buf, count, t, st); }
+{ note_write(buf, count); return PMPI_File_write_at(fh, off, buf, count, t, st); }
 int MPI_File_write_at_all(MPI_File fh, MPI_Offset off, const void *buf, int count, MPI_Datatype t, MPI_Status *st)
-{ note_write(buf); return PMPI_File_write_at_all(fh, off, buf, count, t, st); }
+{ note_write(buf, count); return PMPI_File_write_at_all(fh, off, buf, count, t, st); }
 int MPI_File_write(MPI_File fh, const void *buf, int count, MPI_Datatype t, MPI_Status *st)
-{ note_write(buf); return PMPI_File_write(fh, buf, count, t, st); }
+{ note_write(buf, count); return PMPI_File_write(fh, buf, count, t, st); }
 int MPI_File_write_all(MPI_File fh, const void *buf, int count, MPI_Datatype t, MPI_Status *st)
-{ note_write(buf); return PMPI_File_write_all(fh, buf, count, t, st); }
+{ note_write(buf, count); return PMPI_File_write_all(fh, buf, count, t, st); }
+/* reads: does MPI-IO fill the caller's buffer directly? (watched for get_vard only) */
+static const unsigned char *rwatch_buf; static int rseen_user;
+static void note_read(void *buf) { if (rwatch_buf != NULL && buf == (void *)rwatch_buf) rseen_user = 1; }
+int MPI_File_read_at(MPI_File fh, MPI_Offset off, void *buf, int count, MPI_Datatype t, MPI_Status *st)
+{ note_read(buf); return PMPI_File_read_at(fh, off, buf, count, t, st); }
+int MPI_File_read_at_all(MPI_File fh, MPI_Offset off, void *buf, int count, MPI_Datatype t, MPI_Status *st)
+{ note_read(buf); return PMPI_File_read_at_all(fh, off, buf, count, t, st); }
+int MPI_File_read(MPI_File fh, void *buf, int count, MPI_Datatype t, MPI_Status *st)
+{ note_read(buf); return PMPI_File_read(fh, buf, count, t, st); }
+int MPI_File_read_all(MPI_File fh, void *buf, int count, MPI_Datatype t, MPI_Status *st)
+{ note_read(buf); return PMPI_File_read_all(fh, buf, count, t, st); }
 
 static MPI_Datatype mt2mpi(int mt, int var)
 {
@@ -124,6 +143,7 @@ static void free_req(Req *r)
     if (!r->used) return;
     free(r->mem); free(r->orig); free(r->keep);
     if (r->free_type) MPI_Type_free(&r->buftype);
+    if (r->free_ft) MPI_Type_free(&r->filetype);
     memset(r, 0, sizeof(*r));
 }
 static int guards_ok(Req *r)
@@ -192,10 +212,75 @@ static int reference_read(Req *r, unsigned char *dst)
     return err;
 }
 
+/* another element type of the same size (for NC_ETYPE_MISMATCH) */
+static MPI_Datatype othertype(MPI_Datatype t)
+{
+    if (t == MPI_INT) return MPI_FLOAT;
+    if (t == MPI_FLOAT) return MPI_INT;
+    if (t == MPI_DOUBLE) return MPI_LONG_LONG_INT;
+    if (t == MPI_LONG_LONG_INT) return MPI_DOUBLE;
+    if (t == MPI_SHORT) return MPI_UNSIGNED_SHORT;
+    return MPI_UNSIGNED_CHAR;
+}
+
+/* the filetype of a vard call for the selection st[0]/ct[0] of the variable, relative to the variable's begin */
+static void build_filetype(Req *r)
+{
+    int nd = vnd[r->var], k, isrec = (vshape[r->var][0] == 0), xsz, one = 1;
+    MPI_Datatype xt = mt2mpi(0, r->var), t, t2;
+    MPI_Aint stride[3], off = 0;
+    MPI_Type_size(xt, &xsz);
+    if (r->em == 2) xt = othertype(xt);
+    stride[nd - 1] = xsz;
+    for (k = nd - 2; k >= 0; k--) stride[k] = stride[k + 1] * (MPI_Aint)vshape[r->var][k + 1];
+    if (isrec) stride[0] = (MPI_Aint)the_ncp()->recsize;
+    for (k = 0; k < nd; k++) off += (MPI_Aint)r->st[0][k] * stride[k];
+    r->free_ft = 1;
+    if (r->em == 3) { r->filetype = MPI_DATATYPE_NULL; r->free_ft = 0; return; }
+    if (r->em == 5) { MPI_Type_contiguous(0, xt, &r->filetype); MPI_Type_commit(&r->filetype); return; }
+    if (r->ft == 2) {            /* one contiguous run (the generator picks this only for contiguous selections) */
+        int n = (int)r->nelems;
+        if (off == 0) MPI_Type_contiguous(n, xt, &r->filetype);
+        else MPI_Type_create_hindexed(1, &n, &off, xt, &r->filetype);
+    } else if (r->ft == 0) {     /* subarray */
+        int sizes[3], subs[3], sts[3];
+        if (!isrec) {
+            for (k = 0; k < nd; k++) { sizes[k] = (int)vshape[r->var][k]; subs[k] = (int)r->ct[0][k]; sts[k] = (int)r->st[0][k]; }
+            MPI_Type_create_subarray(nd, sizes, subs, sts, MPI_ORDER_C, xt, &r->filetype);
+        } else {
+            MPI_Aint disp = (MPI_Aint)r->st[0][0] * stride[0];
+            for (k = 1; k < nd; k++) { sizes[k - 1] = (int)vshape[r->var][k]; subs[k - 1] = (int)r->ct[0][k]; sts[k - 1] = (int)r->st[0][k]; }
+            MPI_Type_create_subarray(nd - 1, sizes, subs, sts, MPI_ORDER_C, xt, &t);
+            MPI_Type_create_hvector((int)r->ct[0][0], 1, stride[0], t, &t2); MPI_Type_free(&t);
+            MPI_Type_create_hindexed(1, &one, &disp, t2, &r->filetype); MPI_Type_free(&t2);
+        }
+    } else {                     /* nested hvectors of a contiguous row, displaced to the first element */
+        MPI_Type_contiguous((int)r->ct[0][nd - 1], xt, &t);
+        for (k = nd - 2; k >= 0; k--) { MPI_Type_create_hvector((int)r->ct[0][k], 1, stride[k], t, &t2); MPI_Type_free(&t); t = t2; }
+        MPI_Type_create_hindexed(1, &one, &off, t, &r->filetype); MPI_Type_free(&t);
+    }
+    MPI_Type_commit(&r->filetype);
+}
+
+static int indep_err;
 static int do_call(Req *r)
 {
     MPI_Offset imv[3], *imp = imap_of(r, imv);
     int v = vid[r->var], id = NC_REQ_NULL, err, i;
+    if (r->api == 'd') {
+        MPI_Offset bc = r->bufcount;
+        if (r->em == 1 && r->bl != 1) bc += 1;
+        if (r->em == 4 && r->bl != 1) bc = 0;
+        indep_err = 0;
+        if (!r->coll) { err = ncmpi_begin_indep_data(ncid); if (err) indep_err = err; }
+        if (r->op == 'P') err = r->coll ? ncmpi_put_vard_all(ncid, v, r->filetype, r->buf, bc, r->buftype)
+                                        : ncmpi_put_vard(ncid, v, r->filetype, r->buf, bc, r->buftype);
+        else              err = r->coll ? ncmpi_get_vard_all(ncid, v, r->filetype, r->buf, bc, r->buftype)
+                                        : ncmpi_get_vard(ncid, v, r->filetype, r->buf, bc, r->buftype);
+        if (!r->coll) { int e2 = ncmpi_end_indep_data(ncid); if (e2 && !indep_err) indep_err = e2; }
+        r->id = NC_REQ_NULL;
+        return err;
+    }
     if (r->api == 'n') {
         MPI_Offset *sp[MAXSUB], *cp[MAXSUB];
         for (i = 0; i < r->nsub; i++) { sp[i] = r->st[i]; cp[i] = r->ct[i]; }
@@ -242,7 +327,7 @@ static void close_case(void)
     for (i = 0; i < MAXH; i++) {
         Req *r = &R[i];
         if (!r->used) continue;
-        if ((r->op == 'P' || ((r->op == 'I' || r->op == 'B') && r->state == 1)) && r->nelems > 0) {
+        if ((r->op == 'P' || ((r->op == 'I' || r->op == 'B') && r->state == 1)) && r->nelems > 0 && !r->nodata) {
             unsigned char *ref = (unsigned char *)malloc(r->nelems * r->esize + 8); size_t k, bad = 0;
             reference_read(r, ref);
             for (k = 0; k < r->nelems; k++) if (memcmp(ref + k * r->esize, r->orig + mempos(r, k) * r->esize, r->esize)) bad++;
@@ -330,7 +415,7 @@ int main(int argc, char **argv)
         if (!strcmp(tok[0], "D")) { int e = ncmpi_buffer_detach(ncid); fprintf(out, "D_ err=%d", e); dump_state(); fprintf(out, "\n"); continue; }
         if (!strcmp(tok[0], "U")) { fprintf(out, "U"); dump_state(); fprintf(out, "\n"); continue; }
         if (strchr("PRIBG", tok[0][0]) && tok[0][1] == 0) {
-            int h = atoi(tok[1]), p, i, k, nd, err; size_t m;
+            int h = atoi(tok[1]), p, i, k, nd, err; size_t m; unsigned char *pre = NULL;
             Req *r = &R[h];
             free_req(r);
             r->used = 1; r->op = tok[0][0];
@@ -344,6 +429,7 @@ int main(int argc, char **argv)
                 for (k = 0; k < nd; k++) { r->ct[i][k] = atoll(tok[p++]); n *= (size_t)r->ct[i][k]; }
                 r->nelems += n;
             }
+            if (r->api == 'd') { r->ft = atoi(tok[p]); r->coll = atoi(tok[p + 1]); r->em = atoi(tok[p + 2]); r->nodata = (r->em != 0); }
             r->etype = mt2mpi(r->mt, r->var);
             { int sz; MPI_Type_size(r->etype, &sz); r->esize = (size_t)sz; }
             r->memelems = layelems(r->bl, r->nelems);
@@ -367,18 +453,41 @@ int main(int argc, char **argv)
             else if (r->bl == 7) { MPI_Type_vector(KD, 1, 2, r->etype, &r->buftype); MPI_Type_commit(&r->buftype); r->bufcount = (MPI_Offset)(r->nelems / KD); r->free_type = 1; }
             else if (r->bl == 8) { MPI_Datatype c2; MPI_Type_contiguous(KD / 2, r->etype, &c2); MPI_Type_contiguous(2, c2, &r->buftype); MPI_Type_commit(&r->buftype); MPI_Type_free(&c2); r->bufcount = (MPI_Offset)(r->nelems / KD); r->free_type = 1; }
             else { r->buftype = r->etype; r->bufcount = (MPI_Offset)r->nelems; }
-            if (r->op == 'P') { watch_buf = r->buf; watch_orig = r->orig; watch_len = r->bytes; seen_user = seen_swapped = seen_other = 0; }
+            if (r->api == 'd') {
+                build_filetype(r);
+                /* a refused or zero-length put must leave the file alone: remember what the selection holds */
+                if (r->op == 'P' && r->em != 0) { pre = (unsigned char *)malloc(r->nelems * r->esize + 8); reference_read(r, pre); }
+            }
+            if (r->op == 'P') { watch_buf = r->buf; watch_orig = r->orig; watch_len = r->bytes; seen_user = seen_swapped = seen_other = 0; seen_count = -1; }
+            if (r->op == 'R' && r->api == 'd') { rwatch_buf = r->buf; rseen_user = 0; }
             err = do_call(r);
-            watch_buf = NULL;
+            watch_buf = NULL; rwatch_buf = NULL;
             fprintf(out, "%c h%d err=%d", r->op, h, err);
             if (r->op == 'P') {
                 fprintf(out, " xbuf=%s swapped=%d", seen_user ? "user" : "own", seen_swapped);
+                if (r->api == 'd') { if (seen_user) fprintf(out, " cnt=%d", seen_count); else fprintf(out, " cnt=-"); }
                 dump_state(); fprintf(out, "\n");
-                if (memcmp(r->buf, r->orig, r->bytes)) fprintf(out, "D putbuf-changed h%d after-blocking-put\n", h);
+                if (r->api == 'd' && indep_err) fprintf(out, "D indep-data-mode err=%d\n", indep_err);
+                if (memcmp(r->buf, r->orig, r->bytes)) {
+                    size_t nb = 0, fb = 0; for (m = 0; m < r->bytes; m++) if (r->buf[m] != r->orig[m]) { if (!nb) fb = m; nb++; }
+                    fprintf(out, "D putbuf-changed h%d after-blocking-put nbad=%zu first=%zu of=%zu\n", h, nb, fb, r->bytes);
+                }
                 if (!guards_ok(r)) fprintf(out, "D guard-overwritten h%d after-blocking-put\n", h);
+                if (pre) {
+                    unsigned char *post = (unsigned char *)malloc(r->nelems * r->esize + 8);
+                    reference_read(r, post);
+                    if (memcmp(pre, post, r->nelems * r->esize)) fprintf(out, "D file-changed-by-refused-put h%d em=%d\n", h, r->em);
+                    free(post); free(pre);
+                }
             } else if (r->op == 'R') {
+                if (r->api == 'd') fprintf(out, " xbuf=%s", rseen_user ? "user" : "own");
                 dump_state(); fprintf(out, "\n");
-                if (err == NC_NOERR) check_read(h, r);
+                if (r->api == 'd' && indep_err) fprintf(out, "D indep-data-mode err=%d\n", indep_err);
+                if (r->api == 'd' && r->em != 0) {
+                    for (m = 0; m < r->bytes; m++) if (r->buf[m] != 0xEE) { fprintf(out, "D read-buffer-touched-by-refused-get h%d em=%d\n", h, r->em); break; }
+                    if (!guards_ok(r)) fprintf(out, "D guard-overwritten h%d after-read\n", h);
+                }
+                else if (err == NC_NOERR) check_read(h, r);
             } else {
                 r->queued = (err == NC_NOERR || err == NC_ERANGE) && r->id != NC_REQ_NULL;
                 fprintf(out, " queued=%d", r->queued);
